@@ -17,14 +17,15 @@ EXTENDS Naturals, Sequences, FiniteSets, TLC
 (* cmt "# text"   empty ""   ws "  "   hdr "p af 3"   hdr0 "p af 0"                                      *)
 (* hdrKind "p cnf 3"   hdrP "q af 3"   hdrNum "p af x"   hdrNeg "p af -1"   hdrShort "p af"              *)
 (* a12 "1 2"   a23 "2 3"   a33 "3 3"   aOOR "1 4"   aZero "0 1"   aOne "1"   aThree "1 2 3"   aNaN "a b" *)
+(* cmtBin "# g\xe9n\xe9r\xe9" (a comment holding bytes that are not UTF-8)   aBin "1 \xff2" (such bytes in an attack line)                  *)
 IccmaKinds == {"cmt", "empty", "ws", "hdr", "hdr0", "hdrKind", "hdrP", "hdrNum", "hdrNeg", "hdrShort",
-               "a12", "a23", "a33", "aOOR", "aZero", "aOne", "aThree", "aNaN"}
+               "a12", "a23", "a33", "aOOR", "aZero", "aOne", "aThree", "aNaN", "cmtBin", "aBin"}
 GoodHdr == {"hdr", "hdr0"}
 BadHdr  == {"hdrKind", "hdrP", "hdrNum", "hdrNeg", "hdrShort"}
 GoodAtt == {"a12", "a23", "a33"}
-BadAtt  == {"aOOR", "aZero", "aOne", "aThree", "aNaN"}
+BadAtt  == {"aOOR", "aZero", "aOne", "aThree", "aNaN", "aBin"}
 AttOf(k) == CASE k = "a12" -> <<1, 2>> [] k = "a23" -> <<2, 3>> [] k = "a33" -> <<3, 3>>
-Content(k) == k \notin {"cmt", "empty"}
+Content(k) == k \notin {"cmt", "empty", "cmtBin"}
 
 IccmaVerdict(ls) ==
   LET idx == {i \in 1..Len(ls) : Content(ls[i])}
@@ -33,20 +34,25 @@ IccmaVerdict(ls) ==
       blanks == {i \in 1..Len(ls) : ls[i] = "empty"}
       contentAfterBlank == \E b \in blanks : \E i \in idx : i > b
       n == IF first # 0 /\ ls[first] = "hdr" THEN 3 ELSE 0
-  IN IF hasWs THEN <<"unspecified">>
+      \* a comment that is not valid UTF-8: whether such a file is well-formed is not for the property to say, but it must not be read as
+      \* SOME OTHER framework -- either it is rejected or it is read as exactly what it declares
+      soften(v) == IF v[1] = "accept" /\ \E i \in 1..Len(ls) : ls[i] = "cmtBin" THEN <<"accept_or_reject", v[2], v[3]>> ELSE v
+  IN soften(
+     IF hasWs THEN <<"unspecified">>
      ELSE IF first = 0 THEN <<"reject">>                                           \* missing header
      ELSE IF ls[first] \notin GoodHdr THEN <<"reject">>                          \* bad or missing header
      ELSE IF contentAfterBlank THEN <<"reject">>                                  \* content after a blank line
      ELSE IF \E i \in idx : i > first /\ ls[i] \notin GoodAtt THEN <<"reject">>   \* wrong arity, not an index, second header
      ELSE IF n = 0 /\ \E i \in idx : i > first THEN <<"reject">>                   \* index out of range (no argument at all)
-     ELSE <<"accept", 1..n, {AttOf(ls[i]) : i \in {j \in idx : j > first}}>>
+     ELSE <<"accept", 1..n, {AttOf(ls[i]) : i \in {j \in idx : j > first}}>>)
 
 (* the reader's own state machine: (af seen?, blank seen?, attacks) *)
 RECURSIVE IccmaRunFrom(_, _, _, _, _)
 IccmaRunFrom(ls, hdrSeen, n, blank, att) ==
   IF ls = <<>> THEN (IF hdrSeen THEN <<"accept", 1..n, att>> ELSE <<"reject">>)
   ELSE LET k == Head(ls) IN
-       IF k = "cmt" THEN IccmaRunFrom(Tail(ls), hdrSeen, n, blank, att)
+       IF k = "cmtBin" THEN <<"reject">>                         \* the line cannot be decoded: the read fails
+       ELSE IF k = "cmt" THEN IccmaRunFrom(Tail(ls), hdrSeen, n, blank, att)
        ELSE IF k = "empty" THEN IccmaRunFrom(Tail(ls), hdrSeen, n, TRUE, att)
        ELSE IF blank THEN <<"reject">>
        ELSE IF ~hdrSeen THEN (IF k \in GoodHdr THEN IccmaRunFrom(Tail(ls), TRUE, IF k = "hdr" THEN 3 ELSE 0, blank, att) ELSE <<"reject">>)
@@ -102,6 +108,7 @@ ApxRun(ls) == ApxRunFrom(ls, <<>>, FALSE, {})
 Conforms(verdict, res) ==
   CASE verdict[1] = "accept" -> res = verdict
     [] verdict[1] = "reject" -> res[1] = "reject"
+    [] verdict[1] = "accept_or_reject" -> res[1] = "reject" \/ res = <<"accept", verdict[2], verdict[3]>>
     [] OTHER -> TRUE
 
 (* query-argument lookup *)
